@@ -70,9 +70,15 @@ func (g *Gen) smtFor(o *Obligation) string {
 	var b strings.Builder
 	b.WriteString("; obligation " + o.Name + "\n; " + o.Desc + "\n; at " + o.Pos + "\n")
 	b.WriteString(g.header())
-	for _, l := range g.lines[:o.PrefixLen] {
+	for i, l := range g.lines[:o.PrefixLen] {
+		if len(o.Using) > 0 && !(strings.HasPrefix(l, "(declare-") || g.boolDef[i] || (o.SinceLine >= 0 && i >= o.SinceLine)) {
+			continue
+		}
 		b.WriteString(l)
 		b.WriteByte('\n')
+	}
+	for _, f := range o.UsingFacts {
+		b.WriteString("(assert " + f + ")\n")
 	}
 	for _, l := range o.Extra {
 		b.WriteString(l)
@@ -95,7 +101,7 @@ var solvers = []solverSpec{
 	{"z3-new", func(f string, t int) []string { return []string{"z3-new", fmt.Sprintf("-T:%d", t), "-smt2", f} }},
 	{"z3", func(f string, t int) []string { return []string{"z3", fmt.Sprintf("-T:%d", t), "-smt2", f} }},
 	{"cvc5", func(f string, t int) []string {
-		return []string{"cvc5", "--produce-models", fmt.Sprintf("--tlimit=%d", t*1000), "--lang=smt2", f}
+		return []string{"cvc5", "-q", "--produce-models", fmt.Sprintf("--tlimit=%d", t*1000), "--lang=smt2", f}
 	}},
 }
 
@@ -119,6 +125,13 @@ func runSolver(parent context.Context, sp solverSpec, file string, timeout int) 
 	secs := time.Since(start).Seconds()
 	text := out.String()
 	first := strings.TrimSpace(strings.SplitN(text, "\n", 2)[0])
+	for _, ln := range strings.Split(text, "\n") {
+		ln = strings.TrimSpace(ln)
+		if ln == "sat" || ln == "unsat" || ln == "unknown" {
+			first = ln
+			break
+		}
+	}
 	v := "error"
 	switch {
 	case first == "unsat":
@@ -185,35 +198,39 @@ func discharge(g *Gen, o *Obligation, workDir string, timeout int, st *solverSta
 		}
 		return false
 	}
-	// stage 1: z3-new with a short budget
+	// stage 1: z3-new and cvc5 with a short budget; stage 2: all solvers with the full budget
+	race := func(sps []solverSpec, t int) bool {
+		ch := make(chan solveResult, len(sps))
+		ctx, cancel := context.WithCancel(context.Background())
+		defer cancel()
+		for _, sp := range sps {
+			sp := sp
+			go func() { ch <- runSolver(ctx, sp, file, t) }()
+		}
+		done := false
+		for range sps {
+			r := <-ch
+			if done || r.verdict == "cancelled" {
+				if r.verdict != "cancelled" {
+					record(r)
+				}
+				continue
+			}
+			if finish(r) {
+				done = true
+				cancel()
+			}
+		}
+		return done
+	}
 	t1 := timeout
 	if t1 > 4 {
 		t1 = 4
 	}
-	if finish(runSolver(context.Background(), solvers[0], file, t1)) {
-		return
-	}
-	// stage 2: all solvers in parallel with the full budget
-	ch := make(chan solveResult, len(solvers))
-	ctx, cancel := context.WithCancel(context.Background())
-	defer cancel()
-	for _, sp := range solvers {
-		sp := sp
-		go func() { ch <- runSolver(ctx, sp, file, timeout) }()
-	}
-	done := false
-	for range solvers {
-		r := <-ch
-		if done || r.verdict == "cancelled" {
-			if r.verdict != "cancelled" {
-				record(r)
-			}
-			continue
-		}
-		if finish(r) {
-			done = true
-			cancel()
-		}
+	done := race([]solverSpec{solvers[0], solvers[2]}, t1)
+	if !done && timeout > t1 {
+		o.Output = ""
+		done = race(solvers, timeout)
 	}
 	if !done {
 		o.Status = "unknown"
